@@ -138,6 +138,16 @@ let dispatch (op : string) (x : v) : v =
   | "optscale_sc", [av; rows] -> of_q (M.optscale_sc_m (to_q av) (to_list to_row rows))
   | "optscale_av", [rows] -> of_q (M.optscale_av_m (to_list to_row rows))
   | "chi2", [rows; av; sc] -> of_q (M.chi2_m pen (to_list to_row rows) (to_q av) (to_q sc))
+  | "fmt_e", [p; x] ->
+      (* the decimal exponent is proposed in floating point and validated by the model (Fmt.fmt_e returns None for a wrong one) *)
+      let q = to_q x in
+      let f = abs_float (qf q) in
+      let e0 = if f > 0. && classify_float f <> FP_infinite then int_of_float (floor (log10 f)) else 0 in
+      let rec first = function
+        | [] -> None
+        | e :: r -> (match M.fmt_e (to_nat p) (BZ.of_int e) q with Some me -> Some me | None -> first r) in
+      of_opt (fun (m, e) -> L [of_z m; of_z e]) (first [e0; e0 - 1; e0 + 1])
+  | "fmt_f", [p; x] -> of_z (M.fmt_f (to_nat p) (to_q x))
   | "ndist", [l; step] -> of_z (M.ndist (to_q l) (to_q step))
   | "gridlog", [lo; hi; n] -> of_list of_q (M.gridlog_m (to_q lo) (to_q hi) (to_nat n))
   | "rank", [chi] -> of_list of_nat (M.rank_m (to_list to_xnum chi))
@@ -174,5 +184,5 @@ let dispatch (op : string) (x : v) : v =
        | M.Ok s -> L [S "ok"; of_z s.M.s_name; of_q s.M.s_x; of_q s.M.s_y; of_list of_z s.M.s_flags;
                       of_list of_q s.M.s_flux; of_list of_q s.M.s_err]
        | M.Err e -> L [S "err"; of_err e])
-  | "nkeep", [s; nd; chi] -> of_nat (M.nkeep (to_sel s) (to_pos nd) (to_list to_xnum chi))
+  | "nkeep", [s; nd; chi] -> of_nat (M.nkeepN (to_sel s) (to_z nd) (to_list to_xnum chi))      (* nd : N, 0 allowed *)
   | _ -> raise (Bad ("unknown op or arity: " ^ op))
